@@ -545,15 +545,24 @@ func (e *Exec) Emit(o *Obligation) []*smt.Term {
 	return flat
 }
 
-// Discharge decides all obligations (in parallel).
+// Discharge decides all obligations with its own pool of workers.
 func (e *Exec) Discharge(quick bool, workers int, keepScripts bool) []*OblResult {
+	sem := make(chan struct{}, workers)
+	return e.discharge(quick, sem, keepScripts)
+}
+
+// DischargeWith decides all obligations, bounding solver processes by sem.
+func (e *Exec) DischargeWith(quick bool, sem chan struct{}) []*OblResult {
+	return e.discharge(quick, sem, false)
+}
+
+func (e *Exec) discharge(quick bool, sem chan struct{}, keepScripts bool) []*OblResult {
 	res := make([]*OblResult, len(e.Obls))
-	type job struct {
-		i      int
-		script string
-		size   int
+	first, rest := 10*time.Second, 20*time.Second
+	if !quick {
+		first, rest = 60*time.Second, 120*time.Second
 	}
-	var jobs []job
+	var wg sync.WaitGroup
 	for i, o := range e.Obls {
 		asserts := e.Emit(o)
 		r := &OblResult{O: o}
@@ -586,63 +595,51 @@ func (e *Exec) Discharge(quick bool, workers int, keepScripts bool) []*OblResult
 			}
 		}
 		script := e.C.BuildScript(asserts, logic, false, "")
-		if os.Getenv("GOVC_DEBUG") != "" {
-			fmt.Fprintf(os.Stderr, "   script %d bytes\n", len(script))
-		}
 		if keepScripts {
 			r.Script = script
 		}
-		jobs = append(jobs, job{i, script, r.Size})
-	}
-	first, rest := 10*time.Second, 20*time.Second
-	if !quick {
-		first, rest = 60*time.Second, 120*time.Second
-	}
-	var wg sync.WaitGroup
-	ch := make(chan job)
-	for w := 0; w < workers; w++ {
 		wg.Add(1)
-		go func() {
+		go func(r *OblResult, script string) {
 			defer wg.Done()
-			for j := range ch {
-				r := res[j.i]
-				best, all := smt.Portfolio(j.script, first, rest)
-				r.AllTries = all
-				r.Solver = best.Solver
-				for _, a := range all {
-					r.Time += a.Time
-				}
-				r.Output = best.Output
-				if r.O.Cover {
-					switch best.Status {
-					case "sat":
-						r.Status = "cover-ok"
-					case "unsat":
-						r.Status = "cover-failed"
-					default:
-						r.Status = "cover-ok" // inconclusive covers are not alarms
-						r.Output = "inconclusive: " + best.Status
-					}
-					continue
-				}
+			sem <- struct{}{}
+			defer func() { <-sem }()
+			best, all := smt.Portfolio(script, first, rest)
+			r.AllTries = all
+			r.Solver = best.Solver
+			for _, a := range all {
+				r.Time += a.Time
+			}
+			r.Output = best.Output
+			if r.O.Cover {
 				switch best.Status {
 				case "unsat":
-					r.Status = "proved"
+					r.Status = "cover-failed"
 				case "sat":
-					r.Status = "failed"
+					r.Status = "cover-ok"
 				default:
-					r.Status = "undecided"
+					r.Status = "cover-ok" // inconclusive covers are not alarms
+					r.Output = "inconclusive: " + best.Status
 				}
-				if r.Status != "proved" && !keepScripts {
-					r.Script = j.script
-				}
+				return
 			}
-		}()
+			switch best.Status {
+			case "unsat":
+				r.Status = "proved"
+			case "sat":
+				r.Status = "failed"
+			default:
+				r.Status = "undecided"
+				var sb strings.Builder
+				for _, a := range all {
+					fmt.Fprintf(&sb, "%s:%s ", a.Solver, a.Status)
+				}
+				r.Output = sb.String() + "| " + best.Output
+			}
+			if r.Status != "proved" {
+				r.Script = script
+			}
+		}(r, script)
 	}
-	for _, j := range jobs {
-		ch <- j
-	}
-	close(ch)
 	wg.Wait()
 	return res
 }
